@@ -2,6 +2,32 @@ import PydjinniModel.Props.C03Pos
 import PydjinniModel.Props.C03Text
 /-!
 # C03 — parse, then print: soundness for every declaration kind, namespaces and files
+
+`Props/C03Decl.lean` proves print → parse for all declaration kinds and files, and parse → print for enums, flags and
+records. This file proves parse → print for the remaining kinds and for whole files, for results whose type
+references are all data types (`shape?` is defined; inline function types are excluded as in `record_sound`: that
+sub-grammar is ambiguous and printing is not injective there).
+
+The AST does not record whether an error code without parameters was written `a;` or `a();`. The *refined* shapes
+`ErrCodeShape'` (`params : Option (List ParamShape)`: `none` = no parentheses), `DeclShape'` (`plain d` | `error …`),
+`ContentShape'`, `FileShape'` with printers `printErrCode'` … `printFile'` record it; `toOld` forgets it and `refine`
+is the canonical refinement of an old shape, with the erasure lemmas `printErrCode'_refine`, `printContent'_refine`,
+`printFile'_refine` (`printFile' f.refine = printFile f`) and `refine_toOld` — the theorems of `C03Decl` are unchanged.
+
+* signature layer, every candidate of the list-of-successes parsers whose types are data types:
+  `paramL_data_sound`, `paramList1L_data_sound`, `paramListL_data_sound`, `throwList1L_data_sound`,
+  `throwingL_data_sound`, `sigBody_data_sound`, `functionL_data_sound`, `errParamsL_data_sound`
+* `member_sound`, `errCode_sound`, `typeDecl_sound` (all six kinds), `decl_sound`
+* **`interface_sound`, `function_sound`, `errorDomain_sound`**   in the style of `record_sound`
+* **`content_sound`** (`ContentSound (content fuel)`)             declarations and nested namespaces
+* **`file_sound`**                                                `parseFile toks = some file`, `file.shape?` defined ⇒
+                                                                  `toks.map (·.tk) = printFile' f`, `file.shape? = some f.toOld.erase`
+* `errCode_print'` … `content_print'`, **`file_roundtrip'`**      print → parse for refined shapes (`a ( ) ;` included)
+* **`parseFile_iff_print`**, `parseFile_accepts_iff_print`        the accepted token lists are exactly the printings
+* **`parseText_iff_render`**                                      the accepted texts are exactly the admissible renderings
+Non-vacuity: `exSoundSrc` (an interface with interleaved members, a named function, an error domain with `a;`, `b();`
+and `c(x: i8 y: r);` inside a namespace) is lexed by the real `lex` (kernel `decide`) to `printFile' exSound`, and the
+theorems are instantiated on it.
 -/
 set_option linter.unusedSimpArgs false
 set_option linter.unusedVariables false
@@ -944,4 +970,234 @@ theorem file_roundtrip' (f : FileShape') (toks : List Token) (h : toks.map (·.t
   simp at hlss
   simp [File.shape?, hcss, FileShape.erase, FileShape'.toOld, hlss]
 
+/-! # Main theorems -/
+
+/-- **declarations, parse → print**: if the declaration parser (`content`: comment lines, then `typeDecl`) returns a
+    declaration `x` of any of the six kinds whose types are all data types (`x.shape?` is defined), then its input
+    is `pre ++ rest`, `rest` the returned remainder, and the kinds of `pre` are exactly the printing of a refined
+    declaration shape whose erasure is the shape of `x`. All inputs, all fuel. -/
+theorem decl_sound (fuel : Nat) (ts : List Token) (x : Decl) (rest : List Token)
+    (h : content fuel ts = some (.decl x, rest)) (hd : x.shape?.isSome = true) :
+    ∃ pre d', ts = pre ++ rest ∧ pre.map (·.tk) = printDecl' d' ∧ x.shape? = some d'.toOld.erase := by
+  obtain ⟨g, rfl, ht⟩ := content_decl_inv fuel ts _ rest h
+  obtain ⟨cs, h1, h2⟩ := comments_sound ts
+  obtain ⟨body, d', hbody, hbk, hc, hs⟩ := typeDecl_sound g _ ts _ x rest ht hd
+  exact ⟨cs ++ body, d', by rw [List.append_assoc, ← hbody]; exact h1, by simp [printDecl', h2, hbk, hc], hs⟩
+
+/-- **soundness for interfaces** whose member types are data types: the consumed tokens are the printing of an
+    interface shape (members in source order) whose erasure — methods first, then properties, `dotted` forgotten —
+    is the shape of the returned interface -/
+theorem interface_sound (fuel : Nat) (ts : List Token) (n : String) (c : List String) (mn : Bool) (fl : List String)
+    (flp : Pos) (methods : List Method) (props : List Prop') (p : Pos) (rest : List Token)
+    (h : content fuel ts = some (.decl (.interface n c mn fl flp methods props p), rest))
+    (hd : (Decl.interface n c mn fl flp methods props p).shape?.isSome = true) :
+    ∃ (pre : List Token) (members : List MemberShape), ts = pre ++ rest ∧
+      pre.map (·.tk) = printInterface n c mn fl members ∧
+      (Decl.interface n c mn fl flp methods props p).shape? = some (DeclShape.interface n c mn fl members).erase := by
+  obtain ⟨pre, d', hts, hpre, hs⟩ := decl_sound fuel ts _ rest h hd
+  obtain ⟨L, hL⟩ : ∃ L, (Decl.interface n c mn fl flp methods props p).shape? = some (.interface n c mn fl L) := by
+    simp only [Decl.shape?] at hd ⊢
+    split
+    · exact ⟨_, rfl⟩
+    · next hne => split at hd <;> simp_all
+  have he := hL.symm.trans hs
+  cases d' with
+  | error n' c' cs => simp [DeclShape'.toOld, DeclShape.erase] at he
+  | plain d =>
+    cases d with
+    | interface n' c' mn' fl' ms =>
+      simp only [DeclShape'.toOld, DeclShape.erase, Option.some.injEq, DeclShape.interface.injEq] at he
+      obtain ⟨rfl, rfl, rfl, rfl, -⟩ := he
+      exact ⟨pre, ms, hts, by rw [hpre, printDecl'_plain]; rfl, hs⟩
+    | _ => simp [DeclShape'.toOld, DeclShape.erase] at he
+
+/-- **soundness for named functions** whose parameter, `throws` and return types are data types -/
+theorem function_sound (fuel : Nat) (ts : List Token) (n : String) (c : List String) (fl : Option (List String))
+    (fp : Pos) (ps : List Param) (thr : Option (List TypeRef)) (ret : Option TypeRef) (p : Pos) (rest : List Token)
+    (h : content fuel ts = some (.decl (.function n c (.mk fl fp ps thr ret) p), rest))
+    (hd : (Decl.function n c (.mk fl fp ps thr ret) p).shape?.isSome = true) :
+    ∃ (pre : List Token) (sig : SigShape), ts = pre ++ rest ∧
+      pre.map (·.tk) = printFunction n c fl sig ∧
+      (Decl.function n c (.mk fl fp ps thr ret) p).shape? = some (DeclShape.function n c fl sig).erase := by
+  obtain ⟨pre, d', hts, hpre, hs⟩ := decl_sound fuel ts _ rest h hd
+  obtain ⟨L, hL⟩ : ∃ L, (Decl.function n c (.mk fl fp ps thr ret) p).shape? = some (.function n c fl L) := by
+    simp only [Decl.shape?, Option.isSome_map] at hd ⊢
+    obtain ⟨x, hx⟩ := Option.isSome_iff_exists.mp hd
+    exact ⟨x, by simp [hx]⟩
+  have he := hL.symm.trans hs
+  cases d' with
+  | error n' c' cs => simp [DeclShape'.toOld, DeclShape.erase] at he
+  | plain d =>
+    cases d with
+    | function n' c' fl' sg =>
+      simp only [DeclShape'.toOld, DeclShape.erase, Option.some.injEq, DeclShape.function.injEq] at he
+      obtain ⟨rfl, rfl, rfl, -⟩ := he
+      exact ⟨pre, sg, hts, by rw [hpre, printDecl'_plain]; rfl, hs⟩
+    | _ => simp [DeclShape'.toOld, DeclShape.erase] at he
+
+def printErrorDomain' (name : String) (comment : List String) (codes : List ErrCodeShape') : List Tk :=
+  printHead name comment (Tk.kw "error" :: Tk.kw "{" :: (codes.flatMap printErrCode' ++ [Tk.kw "}"]))
+
+theorem printErrorDomain'_refine (n : String) (c : List String) (cs : List ErrCodeShape) :
+    printErrorDomain' n c (cs.map ErrCodeShape.refine) = printErrorDomain n c cs := by
+  simp [printErrorDomain', printErrorDomain, List.flatMap_map, printErrCode'_refine]
+
+/-- **soundness for error domains** whose parameter types are data types: the consumed tokens are the printing of
+    refined error-code shapes (each records whether its parentheses were written) whose erasures are the shapes of the
+    returned codes -/
+theorem errorDomain_sound (fuel : Nat) (ts : List Token) (n : String) (c : List String) (codes : List ErrCode)
+    (p : Pos) (rest : List Token)
+    (h : content fuel ts = some (.decl (.error n c codes p), rest))
+    (hd : (Decl.error n c codes p).shape?.isSome = true) :
+    ∃ (pre : List Token) (cs : List ErrCodeShape'), ts = pre ++ rest ∧
+      pre.map (·.tk) = printErrorDomain' n c cs ∧
+      (Decl.error n c codes p).shape? = some (DeclShape.error n c (cs.map ErrCodeShape'.toOld)).erase := by
+  obtain ⟨pre, d', hts, hpre, hs⟩ := decl_sound fuel ts _ rest h hd
+  obtain ⟨L, hL⟩ : ∃ L, (Decl.error n c codes p).shape? = some (.error n c L) := by
+    simp only [Decl.shape?, Option.isSome_map] at hd ⊢
+    obtain ⟨x, hx⟩ := Option.isSome_iff_exists.mp hd
+    exact ⟨x, by simp [hx]⟩
+  have he := hL.symm.trans hs
+  cases d' with
+  | error n' c' cs =>
+    simp only [DeclShape'.toOld, DeclShape.erase, Option.some.injEq, DeclShape.error.injEq] at he
+    obtain ⟨rfl, rfl, -⟩ := he
+    exact ⟨pre, cs, hts, by rw [hpre]; rfl, hs⟩
+  | plain d =>
+    cases d with
+    | error n' c' cs =>
+      simp only [DeclShape'.toOld, DeclShape.erase, Option.some.injEq, DeclShape.error.injEq] at he
+      obtain ⟨rfl, rfl, -⟩ := he
+      refine ⟨pre, cs.map ErrCodeShape.refine, hts, ?_, ?_⟩
+      · rw [hpre, printDecl'_plain, printErrorDomain'_refine]; rfl
+      · rw [hs]; simp [DeclShape'.toOld, Function.comp_def, ErrCodeShape.refine_toOld]
+    | _ => simp [DeclShape'.toOld, DeclShape.erase] at he
+
+/-- **`parseFile_iff_print`: the accepted token lists are exactly the printings.** A token list is accepted by
+    `parseFile` with a result free of inline function types, of shape `F`, **iff** its kinds are the printing of a
+    refined file shape `f` with `f.toOld.erase = F` (erasure forgets what the AST does not record: whether a name
+    token was dotted, the interleaving of methods and properties, the parentheses of parameterless error codes). -/
+theorem parseFile_iff_print (toks : List Token) (F : FileShape) :
+    (∃ file, parseFile toks = some file ∧ file.shape? = some F) ↔
+      ∃ f : FileShape', toks.map (·.tk) = printFile' f ∧ f.toOld.erase = F := by
+  constructor
+  · rintro ⟨file, h, hs⟩
+    obtain ⟨f, hf, hfs⟩ := file_sound toks file h (by simp [hs])
+    exact ⟨f, hf, Option.some.inj (hfs.symm.trans hs)⟩
+  · rintro ⟨f, hf, rfl⟩
+    exact file_roundtrip' f toks hf
+
+/-- the same without naming the shape: accepted without inline function types iff a printing -/
+theorem parseFile_accepts_iff_print (toks : List Token) :
+    (∃ file, parseFile toks = some file ∧ file.shape?.isSome = true) ↔ ∃ f : FileShape', toks.map (·.tk) = printFile' f := by
+  constructor
+  · rintro ⟨file, h, hs⟩
+    obtain ⟨f, hf, _⟩ := file_sound toks file h hs
+    exact ⟨f, hf⟩
+  · rintro ⟨f, hf⟩
+    obtain ⟨file, h, hs⟩ := file_roundtrip' f toks hf
+    exact ⟨file, h, by simp [hs]⟩
+
+/-- **`parseText_iff_render`: the accepted texts are exactly the admissible renderings of printings.** A text `s` is
+    accepted by `parseText` (lexer, then parser) with a result free of inline function types, of shape `F`, **iff**
+    `s = renderTks sep (printFile' f)` for a refined file shape `f` with `f.toOld.erase = F` whose printed tokens are
+    well-formed (`Tk.WF`) and a layout `sep` admissible for them (`Layout`, `Props/C03Text.lean`). -/
+theorem parseText_iff_render (s : String) (F : FileShape) :
+    (∃ file, parseText s = some file ∧ file.shape? = some F) ↔
+      ∃ f : FileShape', f.toOld.erase = F ∧ (∀ t ∈ printFile' f, t.WF) ∧
+        ∃ sep, Layout sep (printFile' f) ∧ renderTks sep (printFile' f) = s := by
+  constructor
+  · rintro ⟨file, h, hs⟩
+    unfold parseText at h
+    cases hl : lex s with
+    | none => simp [hl] at h
+    | some toks =>
+      simp only [hl, Option.bind_eq_bind, Option.bind_some] at h
+      obtain ⟨f, hf, hfe⟩ := (parseFile_iff_print toks F).mp ⟨file, h, hs⟩
+      have hlex : (lex s).map (·.map (·.tk)) = some (printFile' f) := by rw [hl]; simp [hf]
+      obtain ⟨hwf, sep, hlay, hr⟩ := (lex_iff_render s (printFile' f)).mp hlex
+      exact ⟨f, hfe, hwf, sep, hlay, hr⟩
+  · rintro ⟨f, rfl, hwf, sep, hlay, hr⟩
+    have hlex := (lex_iff_render s (printFile' f)).mpr ⟨hwf, sep, hlay, hr⟩
+    cases hl : lex s with
+    | none => rw [hl] at hlex; cases hlex
+    | some toks =>
+      rw [hl] at hlex
+      have hk : toks.map (·.tk) = printFile' f := Option.some.inj hlex
+      obtain ⟨file, h, hs⟩ := file_roundtrip' f toks hk
+      exact ⟨file, by simp [parseText, hl, h], hs⟩
+
+/-! # Non-vacuity -/
+
+def exSoundSrc : String :=
+"@extern \"t.yaml\"
+namespace n.m {
+  # an interface
+  i = main interface +cpp { property p: list<r>; static m(a: i8, b: x.y?) throws e -> r; const async k(); property q: i8; }
+  d = error { a; # with parentheses
+    b(); c(x: i8 y: r); }
+}
+g = function -java (q: map<i8, r>) throws e, f;
+h = (x: i8) -> r;"
+
+def exSound : FileShape' :=
+  { loads := [⟨false, "\"t.yaml\""⟩],
+    contents := [
+      .ns "n.m" true [] [
+        .decl (.plain (.interface "i" ["# an interface"] true ["+cpp"] [
+          .p ⟨"p", .mk "list" false [ty "r"] false, []⟩,
+          .m ⟨"m", true, false, false, ⟨[⟨"a", ty "i8"⟩, ⟨"b", .mk "x.y" true [] true⟩], some [ty "e"], some (ty "r")⟩, []⟩,
+          .m ⟨"k", false, true, true, ⟨[], none, none⟩, []⟩,
+          .p ⟨"q", ty "i8", []⟩])),
+        .decl (.error "d" [] [⟨"a", none, []⟩, ⟨"b", some [], ["# with parentheses"]⟩,
+          ⟨"c", some [⟨"x", ty "i8"⟩, ⟨"y", ty "r"⟩], []⟩])],
+      .decl (.plain (.function "g" [] (some ["-java"]) ⟨[⟨"q", .mk "map" false [ty "i8", ty "r"] false⟩], some [ty "e", ty "f"], none⟩)),
+      .decl (.plain (.function "h" [] none ⟨[⟨"x", ty "i8"⟩], none, some (ty "r")⟩))] }
+
+theorem exSound_lex : (lex exSoundSrc).map (fun ts => ts.map (·.tk)) = some (printFile' exSound) := by
+  decide +kernel
+
+/-- the text is accepted and its shape is the erasure of `exSound` (kernel-evaluated) -/
+theorem exSound_parse : (parseText exSoundSrc).bind File.shape? = some exSound.toOld.erase := by decide +kernel
+
+/-- `b();` and `b;` give the same AST shape but are different printings: the refined shape is needed -/
+example : printFile' exSound ≠ printFile exSound.toOld := by decide +kernel
+
+/-- `file_sound` instantiated on the lexer output: its hypotheses hold, and the shape it yields prints the tokens -/
+example : ∀ toks file, lex exSoundSrc = some toks → parseFile toks = some file →
+    ∃ f : FileShape', toks.map (·.tk) = printFile' f ∧ file.shape? = some f.toOld.erase := by
+  intro toks file hl hp
+  have hs := exSound_parse
+  refine file_sound toks file hp ?_
+  simp only [parseText, hl, Option.bind_eq_bind, Option.bind_some, hp] at hs
+  simp [hs]
+
+/-- `parseText_iff_render` instantiated, right to left direction's conclusion holds for the example text -/
+example : ∃ f : FileShape', f.toOld.erase = exSound.toOld.erase ∧ (∀ t ∈ printFile' f, t.WF) ∧
+    ∃ sep, Layout sep (printFile' f) ∧ renderTks sep (printFile' f) = exSoundSrc := by
+  refine (parseText_iff_render exSoundSrc exSound.toOld.erase).mp ?_
+  have hs := exSound_parse
+  cases hp : parseText exSoundSrc with
+  | none => rw [hp] at hs; cases hs
+  | some file => rw [hp] at hs; exact ⟨file, rfl, hs⟩
+
+/-- a text with an inline function type is accepted but outside the fragment (`shape?` undefined) -/
+example : ((parseText "r = record { f: (x: i8) -> bool; }").map (fun f => f.shape?.isSome)) = some false := by
+  decide +kernel
+
 end Pydjinni.Front
+
+section
+open Pydjinni.Front
+#print axioms member_sound
+#print axioms errCode_sound
+#print axioms typeDecl_sound
+#print axioms interface_sound
+#print axioms function_sound
+#print axioms errorDomain_sound
+#print axioms content_sound
+#print axioms file_sound
+#print axioms file_roundtrip'
+#print axioms parseFile_iff_print
+#print axioms parseText_iff_render
+end
